@@ -103,7 +103,7 @@ def classify(checks, verdict, timed_out, rc, text):
     if unwind:
         return "INCONCLUSIVE", "unwinding bound too small: " + unwind[0]["loc"]
     if real:
-        return "FAIL", "; ".join(sorted(set(c["desc"] for c in real)))
+        return "FAIL", " ;; ".join(sorted(set(c["desc"] for c in real)))
     if any(c["status"] in ("UNDETERMINED", "ERROR") for c in checks):
         if "ran out of memory" in text.lower() or "out of memory" in text.lower():
             return "INCONCLUSIVE", "out of memory (solver)"
